@@ -19,6 +19,9 @@ def _pwa(o, cls=None, tgt_kind="pointcloud", src_kind="trimesh", orient="given")
     elif orient == "mixed":
         tris = tris.copy()
         tris[::2] = tris[::2, ::-1]
+    elif orient == "collapsed":
+        # a triangle that repeats a vertex has no area and contains nothing: the domain and the map stay what they were
+        tris = np.vstack([tris, [[tris[0, 0], tris[0, 0], tris[0, 1]]]])
     if src_kind == "coloured":
         src = ColouredTriMesh(S, trilist=tris, colours=np.full((len(S), 3), 0.5))
     elif src_kind == "textured":
@@ -151,8 +154,10 @@ def check_mask(o):
                 bad.append((cls + ": a single in-domain point is not mapped to its image", {"batch": b}, None))
     # the source given as a mesh that carries colours / a texture, or with its triangles listed clockwise / in mixed orientation, is
     # the same triangulation: same domain (the triangle list decides, not the convex hull), same map
-    for kw in (dict(src_kind="coloured"), dict(src_kind="textured"), dict(orient="cw"), dict(orient="mixed")):
-        tagv = "source %s" % ("as a %s mesh" % kw["src_kind"] if "src_kind" in kw else "with triangles listed %s" % kw["orient"])
+    for kw in (dict(src_kind="coloured"), dict(src_kind="textured"), dict(orient="cw"), dict(orient="mixed"), dict(orient="collapsed")):
+        tagv = "source %s" % ("as a %s mesh" % kw["src_kind"] if "src_kind" in kw else
+                              "with a collapsed (repeated-vertex, zero-area) triangle added to its list" if kw["orient"] == "collapsed" else
+                              "with triangles listed %s" % kw["orient"])
         try:
             wv, _, _ = _pwa(o, "PiecewiseAffine", **kw)
             gv = wv.apply(pts.copy(), batch_size=b)
@@ -167,6 +172,23 @@ def check_mask(o):
             elif mv.shape != want.shape or not np.array_equal(mv, want):
                 bad.append(("PiecewiseAffine, %s: the containment error flags other points (the domain is the triangle list, not the hull)" % tagv,
                             {"batch": b, "got": mv, "want": want}, None))
+    # BooleanImage.constrain_to_pointcloud: the same mask for every batch size (including sizes that do not divide the number of
+    # pixels and sizes beyond it)
+    from menpo.image import BooleanImage
+    from menpo.shape import TriMesh as _TM
+
+    Sx = L.pts(o["S"])
+    if Sx.min() >= 0:
+        shape = (int(np.ceil(Sx[:, 0].max())) + 2, int(np.ceil(Sx[:, 1].max())) + 2)
+        srcm = _TM(Sx, trilist=np.array(o["tris"], dtype=int) - 1)
+        ref_img = BooleanImage.init_blank(shape)
+        ref_img = ref_img.constrain_to_pointcloud(srcm, point_in_pointcloud="pwa")
+        for bs in (3, 7, 1000):
+            bi = BooleanImage.init_blank(shape).constrain_to_pointcloud(srcm, batch_size=bs, point_in_pointcloud="pwa")
+            if not np.array_equal(bi.mask, ref_img.mask):
+                bad.append(("BooleanImage.constrain_to_pointcloud(batch_size=%d) gives another mask than without batching" % bs,
+                            {"true_pixels": [int(bi.mask.sum()), int(ref_img.mask.sum())]}, None))
+                break
     # the same containment decides which pixels a boolean image keeps (constrain_to_pointcloud): one flag per index, any batch size
     from menpo.image.boolean import pwa_point_in_pointcloud
     from menpo.shape import TriMesh
@@ -227,9 +249,17 @@ def check_tps(o):
     kw = {}
     if c["kernel"] != "default":
         kw["kernel"] = getattr(rbf, c["kernel"])(S.copy())
-    if c["msv"] != "default":
+    if c["msv"] == "0":
+        # "keep every singular value" is a value of the option, not its absence; landmarks in small units need it
+        kw["min_singular_val"] = 0
+        S, T = S * 1.0e-3, T * 1.0e-3
+        if "kernel" in kw:
+            kw["kernel"] = getattr(rbf, c["kernel"])(S.copy())
+    elif c["msv"] != "default":
         kw["min_singular_val"] = 1e-3
     t = mt.ThinPlateSplines(PointCloud(S), PointCloud(T), **kw)
+    if "min_singular_val" in kw and t.min_singular_val != kw["min_singular_val"]:
+        bad.append(("TPS does not keep the min_singular_val it was given", {"given": kw["min_singular_val"], "kept": t.min_singular_val}, None))
     diam = float(np.max(np.linalg.norm(S[:, None] - S[None], axis=2)))
     tol = 1e-8 * diam
     if not np.allclose(t.apply(S), T, atol=tol):
@@ -250,7 +280,7 @@ def check_tps(o):
         bad.append(("TPS inverse kernel is not centred on its own source points", {}, None))
     if inv.min_singular_val != t.min_singular_val:
         bad.append(("TPS inverse dropped min_singular_val", {}, None))
-    grid = np.array([[x, y] for x in (0.5, 1.5, 2.5) for y in (0.25, 1.0, 2.75, 3.5)])
+    grid = np.array([[x, y] for x in (0.5, 1.5, 2.5) for y in (0.25, 1.0, 2.75, 3.5)]) * (1.0e-3 if c["msv"] == "0" else 1.0)
     full = t.apply(grid)
     for k in (1, 2, 5, 11, 12, 14):
         if not L.close(t.apply(grid, batch_size=k), full, 1e-12):
